@@ -2,7 +2,7 @@
     The only thing supplied by OCaml is [ask : string -> string], a round trip to primsrv. *)
 From Coq Require Import List ZArith NArith Bool String Ascii.
 From SC Require Import Base.Res Base.F64 Base.RustInt Base.Dec Base.Num Base.Oracle
-  Lang.Syntax Lang.Lexer Lang.Literal Lang.Parser Eval.Run Gen.Tables Extract.Wire.
+  Lang.Syntax Lang.Lexer Lang.Literal Lang.Parser Eval.Run Gen.Tables Spec.Surface Spec.Cost Extract.Wire.
 Import ListNotations.
 Local Open Scope string_scope.
 
@@ -76,6 +76,15 @@ Section Driver.
           match rd ph with
           | None => bad
           | Some p =>
+              if String.eqb mode "cost" then
+                match tokens_of LT conv s with
+                | None => "ERR"
+                | Some ts => match parse PT p ts with
+                             | Ok a => "OK " ++ show_N (N.of_nat (total_bound ts a))
+                             | _ => "ERR"
+                             end
+                end
+              else
               if String.eqb mode "ast" then show_res (show_node sv leaf) (ast_of LT conv PT s p)
               else if String.eqb mode "eval" then show_res sv (run LT conv PT ev s p)
               else bad
